@@ -247,3 +247,11 @@ func key4096(id string, nattr int) *KeyPair {
 	keyCache.Store(ck, kp)
 	return kp
 }
+
+// rotatedKey returns the key material of `material` published under the issuer name of `base`
+// with another key counter: two keys of one issuer, as after a key rotation.
+func rotatedKey(base, material *KeyPair, counter uint) *KeyPair {
+	pk2, sk2 := *material.pk, *material.sk
+	pk2.Issuer, pk2.Counter, sk2.Counter = base.pk.Issuer, counter, counter
+	return &KeyPair{id: fmt.Sprintf("%s#%d", base.id, counter), sk: &sk2, pk: &pk2}
+}
